@@ -1,12 +1,16 @@
 (** Executable comparison functions of the C05 / C10 correspondence checks (cases rendered by props/c05.py and
     props/c10.py, evaluated with vm_compute). *)
-From Coq Require Import List NArith ZArith Bool Arith.
+From Coq Require Import List NArith ZArith Bool Arith Uint63.
 From V Require Import Common.Bytes Gguf.Model.
 Import ListNotations.
 Open Scope N_scope.
 
-(** long byte strings are written by the renderers as 32-byte little-endian words: [unpack len words] *)
-Definition unpack (n : N) (ws : list N) : list N := firstn (N.to_nat n) (flat_map (le 32) ws).
+(** long byte strings are written by the renderers as 7-byte little-endian words held in primitive 63-bit integers
+    (list literals of N elaborate ~15x slower): [unp len words] *)
+Definition bytes7 (x : int) : list N :=
+  (fix go (k : nat) (x : int) : list N :=
+     match k with O => nil | S k' => Z.to_N (Uint63.to_Z (Uint63.land x 255%uint63)) :: go k' (Uint63.lsr x 8%uint63) end) 7%nat x.
+Definition unp (n : N) (ws : list int) : list N := firstn (N.to_nat n) (flat_map bytes7 ws).
 
 Fixpoint eqb_val (a b : val) : bool :=
   match a, b with
